@@ -178,9 +178,10 @@ func init() {
 		}
 		// ---- single corruptions
 		for _, kind := range []string{"dup-vertex", "dup-transaction", "missing-parent", "second-self-sealed", "second-self-sealed-parentless", "empty-transaction", "empty-transaction-zero-length-data", "non-canonical",
-			"root-transaction-emptied", "root-amount-non-canonical", "root-replaced-by-empty", "root-replaced-by-non-canonical"} {
+			"root-transaction-emptied", "root-amount-non-canonical", "root-replaced-by-empty", "root-replaced-by-non-canonical",
+			"empty-stream", "genesis-only-ledger-vertex-dropped"} {
 			shape := "chain"
-			if strings.HasPrefix(kind, "root-replaced") {
+			if strings.HasPrefix(kind, "root-replaced") || kind == "genesis-only-ledger-vertex-dropped" {
 				shape = "genesis"
 			}
 			w, src := syncSource(c, shape)
@@ -210,6 +211,10 @@ func init() {
 				t := w.NewTrx(w.wallets[1], w.wallets[2].Address(), spice.Melange{}, nil)
 				v, _ := accountant.NewVertex(t, mid.Hash, mid.Hash, mid.Weight+1, w.wallets[2])
 				vs = append(vs, &v)
+			case "empty-stream", "genesis-only-ledger-vertex-dropped":
+				// the connection dropped before the first vertex / the only vertex of the smallest ledger is lost:
+				// the stream delivers nothing at all
+				vs = nil
 			case "empty-transaction-zero-length-data":
 				t := w.NewTrx(w.wallets[1], w.wallets[2].Address(), spice.Melange{}, []byte{})
 				v, _ := accountant.NewVertex(t, mid.Hash, mid.Hash, mid.Weight+1, w.wallets[2])
